@@ -856,6 +856,14 @@ class Machine:
                 ops.append((k, {"scale": st.pick((2.0, -1.0, 0.5, -4.0) if adaptive else (2.0, -1.0, 0.3, 1.7, -2.5), "scale")}))
         target = st.pick(("trapezoid", "rectangle"), "target")
         m = ("integral_match", {"target": target, "reference": "rectangle"})
+        # in the other order the maps act on the n-times finer grid: it must be representable wherever they take it
+        x0, _ = self.cur()
+        reach = float(np.max(np.abs(x0))) * max([1.0] + [abs(o[1]["scale"]) for o in ops if o[0] == "scale_x"]) + \
+            sum(abs(o[1]["shift"]) for o in ops if o[0] == "shift_x")
+        shrink_ = min([1.0] + [abs(o[1]["scale"]) for o in ops if o[0] == "scale_x"])
+        if len(x0) > 1 and not self.resolvable(reach, float(np.min(np.diff(x0))) * shrink_ / g[1]["n"]):
+            self.count("R5-skipped-unrepresentable")
+            return
         other = copy.deepcopy(self.wv)
         # A: maps first, then pipeline (on the primary, with the step oracles)
         def conditioning(xs):
